@@ -8,7 +8,7 @@ from harness.common import cps, uncps
 from harness.props import c03
 from harness.props.c01 import all_texts
 
-BRIDGE = ('Gemato.Bridge.Sign', 'Gemato.Bridge.SrcUpdate', 'Gemato.Bridge.SrcPgp', 'Gemato.Bridge.SrcText', 'Gemato.Bridge.SrcLoader')
+BRIDGE = ('Gemato.Bridge.Sign', 'Gemato.Bridge.SrcUpdate', 'Gemato.Bridge.SrcPgp', 'Gemato.Bridge.SrcText', 'Gemato.Bridge.SrcLoader', 'Gemato.Bridge.SrcCli')
 PROPS = ['Gemato.Props.C14']
 PGP_HEAD = '-----BEGIN PGP SIGNED MESSAGE-----'
 UNKNOWN_KEY = '0xDEADBEEFDEADBEEF'
